@@ -5,6 +5,8 @@ import FstVerif.Model.Ops
 import FstVerif.Model.Lev
 import FstVerif.Model.Merge
 import FstVerif.Spec.Format
+import FstVerif.Spec.Encode
+import FstVerif.Spec.Utf8
 /-
 Line-protocol driver: one case per input line, one result line per case.
 Imports `Model/` and the executable format parser only (no proofs, no Mathlib).
@@ -428,11 +430,16 @@ def step (st : DrvState) (line : String) : DrvState × String :=
   | ["crc", chunks] => (st, cmdCrc chunks)
   | "node" :: v :: last :: addr :: fin :: fout :: rest =>
     (st, cmdNode v.toNat! last.toNat! addr.toNat! (fin == "1") fout.toNat! (rest.headD ""))
-  | ["utf8full", s] => ({ st with utf8Full := parseFull s }, "utf8full ok")
+  | ["utf8full", s] =>
+    -- the crate's Utf8Sequences(0, 10FFFF) must be the literal the C17 theorem is about
+    ({ st with utf8Full := parseFull s },
+     if parseFull s == Spec.utf8Full then "utf8full ok" else "utf8full differs-from-Spec.utf8Full")
   | ["lev", q, d, limit] => (st, cmdLev st q d.toNat! limit.toNat!)
   | "merge" :: mode :: batch :: fd :: _threads :: seed :: rest =>
     (st, cmdMerge mode batch.toNat! fd.toNat! seed.toNat! (rest.headD ""))
   | ["spec", hex] => (st, cmdSpec hex)
+  | ["enc", v, ty, style, share, kv] =>
+    (st, "enc " ++ showBytes (Spec.encodeFst v.toNat! ty.toNat! (if kv == "." then [] else parseKV kv) style.toNat! (share == "1")).toArray)
   | ["hdr", hex] =>
     match arrayOfHex hex with
     | some bs => let (st', o) := openBytes st bs; (st', "load " ++ o)
